@@ -43,8 +43,9 @@ struct SongOpts
     bool big_deltas;
     bool allow_cc_special;       // bank select etc.
     int force_division;          // 0 = random
+    bool restrikes;              // legato re-strikes of several held keys in one tick (note-offs and note-ons of the same keys together)
     SongOpts(): min_tracks(1), max_tracks(8), max_events(40), tempo_changes(true), loops(false), lone_eot(true),
-        sysex_meta(true), big_deltas(false), allow_cc_special(true), force_division(0) {}
+        sysex_meta(true), big_deltas(false), allow_cc_special(true), force_division(0), restrikes(true) {}
 };
 
 static inline SEv mk_chan(uint64_t tick, uint8_t status, int d0, int d1 = -1)
@@ -101,6 +102,26 @@ static inline Song gen_song(Rng &r, const SongOpts &o)
             uint8_t ch = (uint8_t)chans[ci];
             int kind = (int)r.below(100);
             SEv e;
+            if(o.restrikes && kind < 30 && r.chance(0.15))
+            {
+                // legato re-strike of up to 4 held keys of this channel, all in this tick: each key gets its note-off
+                // and, later in the file, a new note-on; grouped (offs first) or interleaved key by key
+                std::vector<int> ks;
+                for(int k = 0; k < 128 && ks.size() < 4; k++) if(held[ci][k] && r.chance(0.7)) ks.push_back(k);
+                if(ks.size() >= 1)
+                {
+                    bool grouped = r.chance(0.5);
+                    std::vector<SEv> offs, ons;
+                    for(size_t q = 0; q < ks.size(); q++)
+                    {
+                        offs.push_back(r.chance(0.5) ? mk_chan(tick, 0x80 | ch, ks[q], r.range(0, 127)) : mk_chan(tick, 0x90 | ch, ks[q], 0));
+                        ons.push_back(mk_chan(tick, 0x90 | ch, ks[q], r.range(1, 127)));
+                    }
+                    if(grouped) { for(size_t q = 0; q < ks.size(); q++) { offs[q].serial = serial++; tr.ev.push_back(offs[q]); } for(size_t q = 0; q < ks.size(); q++) { ons[q].serial = serial++; tr.ev.push_back(ons[q]); } }
+                    else for(size_t q = 0; q < ks.size(); q++) { offs[q].serial = serial++; tr.ev.push_back(offs[q]); ons[q].serial = serial++; tr.ev.push_back(ons[q]); }
+                    continue;
+                }
+            }
             if(kind < 30)
             {
                 int key = r.range(30, 90);
